@@ -176,7 +176,7 @@ Qed.
 Lemma get_field_wf sch : forall path m rf, get_field sch m path = Some rf -> rfield_wf rf = true.
 Proof.
   induction path as [|first rest IH]; intros m rf H; simpl in H; [discriminate|].
-  destruct (msg_field m (if reserved first then (first ++ "_")%string else first)) as [cursor|]; [|discriminate].
+  destruct (msg_field m (if reserved first && m_proto_plus m then (first ++ "_")%string else first)) as [cursor|]; [|discriminate].
   destruct rest as [|r rest'].
   - inversion H. apply rfield_of_wf.
   - destruct (f_repeated cursor); [discriminate|].
@@ -406,9 +406,9 @@ Definition app_for (kf : string * rfield) (a : app) : Prop :=
   ap_param a = r_name (snd kf) /\ ap_key a = fst kf /\ ap_kind a = kind_of (snd kf) /\
   ap_presence a = r_presence (snd kf) /\ combo_ok a.
 
-Lemma mk_app_for g act s kf :
+Lemma mk_app_for g act kf :
   (match act with Assign => g = GNotNone | Extend => kind_of (snd kf) = KList | Update => kind_of (snd kf) = KMap end) ->
-  app_for kf (mk_app g act s kf).
+  app_for kf (mk_app g act kf).
 Proof. intro H. unfold app_for, mk_app, combo_ok. simpl. repeat split; try reflexivity. destruct act; assumption. Qed.
 
 Lemma kind_list rf : rfield_wf rf = true -> r_repeated rf = true -> r_map rf = false -> kind_of rf = KList.
@@ -419,28 +419,6 @@ Lemma wf_struct rf : rfield_wf rf = true -> r_struct_value rf = true -> r_map rf
 Proof.
   unfold rfield_wf. intros W S. rewrite S in W. destruct (r_map rf); [|reflexivity].
   simpl in W. rewrite andb_false_r in W. simpl in W. rewrite andb_false_r in W. discriminate.
-Qed.
-
-Lemma sync_cross_rep_for b l : forall a,
-  In a (sync_cross_rep b l) -> exists kf, In kf l /\ ap_key a = fst kf /\
-     (r_repeated (snd kf) = true -> rfield_wf (snd kf) = true -> app_for kf a).
-Proof.
-  revert b. induction l as [|kf l IH]; intros b a H; simpl in H; [contradiction|].
-  destruct H as [<-|H].
-  - exists kf. split; [now left|]. split; [reflexivity|]. intros R W. apply mk_app_for.
-    destruct (r_map (snd kf)) eqn:M; [now apply kind_map | now apply kind_list].
-  - destruct (IH false a H) as [kf' [H1 H2]]. exists kf'. split; [now right|assumption].
-Qed.
-
-Lemma sync_cross_rep_keys b l : map ap_key (sync_cross_rep b l) = map fst l.
-Proof. revert b. induction l as [|kf l IH]; intro b; simpl; [reflexivity|]. now rewrite IH. Qed.
-
-Lemma sync_cross_rep_has b l : forall kf, In kf l -> exists a, In a (sync_cross_rep b l) /\ ap_key a = fst kf.
-Proof.
-  revert b. induction l as [|x l IH]; intros b kf H; simpl in *; [contradiction|].
-  destruct H as [->|H].
-  - eexists. split; [now left|reflexivity].
-  - destruct (IH false kf H) as [a [Ha E]]. exists a. split; [now right|assumption].
 Qed.
 
 (* --- keys of the emitted application lists --- *)
@@ -504,9 +482,8 @@ Definition no_empty_dotted (m : fm) (kw : kwargs) : Prop :=
   forall kf v, In kf m -> assoc (r_name (snd kf)) kw = Some v -> dotted (fst kf) = true ->
     (kind_of (snd kf) = KList \/ kind_of (snd kf) = KMap) -> truthy v = true.
 
-(* the asyncio client builds a cross-package request by keyword: every flattened key must be a top-level field *)
-Definition ctor_ok (m : fm) (inf : list string) : Prop :=
-  forall kf, In kf m -> fst kf = r_name (snd kf) /\ In (r_name (snd kf)) inf /\ dotted (fst kf) = false.
+(* a cross-package mapping holds primitive fields only (Method._fields_mapping drops the others), hence no maps *)
+Definition no_maps (m : fm) : Prop := forall kf, In kf m -> r_map (snd kf) = false.
 
 Lemma map_put_fresh kk vv acc : ~ In kk (map fst acc) -> map_put kk vv acc = acc ++ [(kk, vv)].
 Proof.
@@ -538,7 +515,7 @@ Proof. destruct v; simpl; try discriminate. eauto. Qed.
 (* an application emitted for a field acts, on a still-unset key, like the plain assignment of the value *)
 Lemma eff_same m kw kf a :
   In kf m -> kw_wf m kw -> no_empty_dotted m kw -> app_for kf a ->
-  let s := mk_app GNotNone Assign 0 kf in
+  let s := mk_app GNotNone Assign kf in
   stored (eff a kw) = stored (eff s kw) /\
   (forall p, touched (eff a kw) && mem_str p (prefixes (ap_key a)) = touched (eff s kw) && mem_str p (prefixes (ap_key s))).
 Proof.
@@ -619,90 +596,110 @@ Proof.
   intro ND. unfold spec_apps. split; [|split].
   - rewrite map_map. simpl. exact ND.
   - intros a Ha. apply in_map_iff in Ha as [kf [<- Hkf]]. exists kf. split; [assumption|]. now apply mk_app_for.
-  - intros kf Hkf. exists (mk_app GNotNone Assign 0 kf). split; [now apply in_map|reflexivity].
+  - intros kf Hkf. exists (mk_app GNotNone Assign kf). split; [now apply in_map|reflexivity].
 Qed.
 
-Lemma covers_sync m cross pp inf :
-  NoDup (map fst m) -> fm_wf m -> covers m (b_apps (emit_sync m cross pp inf)).
+Lemma covers_sync m cross pp :
+  NoDup (map fst m) -> fm_wf m -> covers m (b_apps (emit_sync m cross pp)).
 Proof.
   intros ND WF. unfold emit_sync. simpl.
   set (p := fun kf : string * rfield => negb (r_repeated (snd kf)) || negb cross).
   set (q := fun kf : string * rfield => r_repeated (snd kf) && cross).
-  set (f1 := fun kf : string * rfield => mk_app GNotNone (if r_struct_value (snd kf) && r_repeated (snd kf) then Extend else Assign) 0 kf).
+  set (f1 := fun kf : string * rfield => mk_app GNotNone (if r_struct_value (snd kf) && r_repeated (snd kf) then Extend else Assign) kf).
+  set (f2 := fun kf : string * rfield => mk_app GTruthy (if r_map (snd kf) then Update else Extend) kf).
   assert (K1 : map ap_key (map f1 (filter p m)) = map fst (filter p m)) by (rewrite map_map; reflexivity).
+  assert (K2 : map ap_key (map f2 (filter q m)) = map fst (filter q m)) by (rewrite map_map; reflexivity).
   split; [|split].
-  - rewrite map_app, K1, sync_cross_rep_keys. apply nodup_app_filters; [|assumption].
+  - rewrite map_app, K1, K2. apply nodup_app_filters; [|assumption].
     intros x _. unfold p, q. destruct (r_repeated (snd x)), cross; reflexivity.
   - intros a Ha. apply in_app_or in Ha as [Ha|Ha].
     + apply in_map_iff in Ha as [kf [<- Hkf]]. apply filter_In in Hkf as [Hkf _]. exists kf. split; [assumption|].
       unfold f1. apply mk_app_for.
       destruct (r_struct_value (snd kf) && r_repeated (snd kf)) eqn:E; [|reflexivity].
       apply andb_true_iff in E as [E1 E2]. apply kind_list; auto. apply wf_struct; auto.
-    + destruct (sync_cross_rep_for true _ a Ha) as [kf [Hkf [K F]]].
-      apply filter_In in Hkf as [Hkf Q]. unfold q in Q. apply andb_true_iff in Q as [R _].
-      exists kf. split; [assumption|]. apply F; auto.
+    + apply in_map_iff in Ha as [kf [<- Hkf]]. apply filter_In in Hkf as [Hkf Q]. exists kf. split; [assumption|].
+      unfold q in Q. apply andb_true_iff in Q as [R _]. unfold f2. apply mk_app_for.
+      destruct (r_map (snd kf)) eqn:M; [now apply kind_map | apply kind_list; auto].
   - intros kf Hkf. destruct (p kf) eqn:P.
     + exists (f1 kf). split; [|reflexivity]. apply in_or_app. left. apply in_map. apply filter_In. now split.
     + assert (Q : q kf = true). { unfold p, q in *. destruct (r_repeated (snd kf)), cross; simpl in *; congruence. }
-      destruct (sync_cross_rep_has true (filter q m) kf) as [a [Ha E]]; [apply filter_In; now split|].
-      exists a. split; [|assumption]. apply in_or_app. now right.
+      exists (f2 kf). split; [|reflexivity]. apply in_or_app. right. apply in_map. apply filter_In. now split.
 Qed.
 
-Lemma keys_mk_app g a s (l : fm) : map ap_key (map (mk_app g a s) l) = map fst l.
+Lemma keys_mk_app g a (l : fm) : map ap_key (map (mk_app g a) l) = map fst l.
 Proof. rewrite map_map. apply map_ext. reflexivity. Qed.
 
-Lemma covers_async m pp inf :
-  NoDup (map fst m) -> fm_wf m -> covers m (b_apps (emit_async m false pp inf)).
+Lemma wf_map_repeated m : fm_wf m -> forall kf, In kf m -> r_map (snd kf) = true -> r_repeated (snd kf) = true.
 Proof.
-  intros ND WF. unfold emit_async. simpl.
-  set (p1 := fun kf : string * rfield => negb (r_repeated (snd kf)) && true).
-  set (p2 := fun kf : string * rfield => r_map (snd kf) && true).
-  set (p3 := fun kf : string * rfield => r_repeated (snd kf) && negb (r_map (snd kf)) && true).
-  assert (MR : forall kf, In kf m -> r_map (snd kf) = true -> r_repeated (snd kf) = true).
-  { intros kf Hkf M. specialize (WF kf Hkf). unfold rfield_wf in WF. rewrite M in WF. simpl in WF.
-    destruct (r_repeated (snd kf)); [reflexivity|discriminate]. }
-  split; [|split].
-  - rewrite !map_app, !keys_mk_app.
-    apply NoDup_app_intro.
-    + now apply nodup_filter.
-    + apply nodup_app_filters; [|assumption]. intros x _. unfold p2, p3. destruct (r_map (snd x)), (r_repeated (snd x)); reflexivity.
-    + intros k H1 H2. apply in_app_or in H2 as [H2|H2].
-      * revert H2. apply (disjoint_filters p1 p2 m); try assumption.
-        intros x Hx. unfold p1, p2. destruct (r_map (snd x)) eqn:M; [|now rewrite andb_false_r].
-        rewrite (MR x Hx M). reflexivity.
-      * revert H2. apply (disjoint_filters p1 p3 m); try assumption.
-        intros x _. unfold p1, p3. destruct (r_repeated (snd x)); reflexivity.
-  - intros a Ha. apply in_app_or in Ha as [Ha|Ha]; [|apply in_app_or in Ha as [Ha|Ha]];
-      apply in_map_iff in Ha as [kf [<- Hkf]]; apply filter_In in Hkf as [Hkf P]; exists kf; (split; [assumption|]); apply mk_app_for.
-    + reflexivity.
-    + unfold p2 in P. rewrite andb_true_r in P. now apply kind_map.
-    + unfold p3 in P. rewrite andb_true_r in P. apply andb_true_iff in P as [R M]. apply negb_true_iff in M. apply kind_list; auto.
-  - intros kf Hkf. destruct (r_repeated (snd kf)) eqn:R; [destruct (r_map (snd kf)) eqn:M|].
-    + exists (mk_app GTruthy Update 0 kf). split; [|reflexivity]. apply in_or_app. right. apply in_or_app. left.
-      apply in_map. apply filter_In. split; [assumption|]. unfold p2. now rewrite M.
-    + exists (mk_app GTruthy Extend 0 kf). split; [|reflexivity]. apply in_or_app. right. apply in_or_app. right.
-      apply in_map. apply filter_In. split; [assumption|]. unfold p3. now rewrite R, M.
-    + exists (mk_app GNotNone Assign 0 kf). split; [|reflexivity]. apply in_or_app. left.
-      apply in_map. apply filter_In. split; [assumption|]. unfold p1. now rewrite R.
+  intros WF kf Hkf M. specialize (WF kf Hkf). unfold rfield_wf in WF. rewrite M in WF. simpl in WF.
+  destruct (r_repeated (snd kf)); [reflexivity|discriminate].
 Qed.
 
-Definition ctor_list (m : fm) : list app := map (fun kf => mk_app GNotNone Assign 0 (r_name (snd kf), snd kf)) m.
-
-Lemma covers_ctor m inf : NoDup (map fst m) -> ctor_ok m inf -> covers m (ctor_list m).
+Lemma covers_async m cross pp :
+  NoDup (map fst m) -> fm_wf m -> (cross = true -> no_maps m) -> covers m (b_apps (emit_async m cross pp)).
 Proof.
-  intros ND C. unfold ctor_list. split; [|split].
-  - rewrite map_map. simpl. rewrite (map_ext_in _ fst); [assumption|]. intros kf Hkf. symmetry. now apply C.
-  - intros a Ha. apply in_map_iff in Ha as [kf [<- Hkf]]. exists kf. split; [assumption|].
-    destruct (C kf Hkf) as (E & _). unfold app_for, mk_app, combo_ok. simpl. repeat split; auto.
-  - intros kf Hkf. eexists. split; [apply in_map; eassumption|]. simpl. symmetry. now apply C.
+  intros ND WF NM. unfold emit_async. simpl.
+  set (p1 := fun kf : string * rfield => negb (r_repeated (snd kf))).
+  set (p2 := fun kf : string * rfield => r_map (snd kf)).
+  set (p3 := fun kf : string * rfield => r_repeated (snd kf) && negb (r_map (snd kf))).
+  set (c2 := fun kf : string * rfield => r_repeated (snd kf)).
+  pose proof (wf_map_repeated m WF) as MR.
+  destruct cross.
+  - (* cross-package: assigned, then extended *)
+    specialize (NM eq_refl). split; [|split].
+    + rewrite !map_app, !keys_mk_app. apply nodup_app_filters; [|assumption].
+      intros x _. unfold p1, c2. destruct (r_repeated (snd x)); reflexivity.
+    + intros a Ha. apply in_app_or in Ha as [Ha|Ha];
+        apply in_map_iff in Ha as [kf [<- Hkf]]; apply filter_In in Hkf as [Hkf P]; exists kf; (split; [assumption|]); apply mk_app_for.
+      * reflexivity.
+      * unfold c2 in P. apply kind_list; auto.
+    + intros kf Hkf. destruct (r_repeated (snd kf)) eqn:R.
+      * exists (mk_app GTruthy Extend kf). split; [|reflexivity]. apply in_or_app. right.
+        apply in_map. apply filter_In. split; [assumption|exact R].
+      * exists (mk_app GNotNone Assign kf). split; [|reflexivity]. apply in_or_app. left.
+        apply in_map. apply filter_In. split; [assumption|]. unfold p1. now rewrite R.
+  - split; [|split].
+    + rewrite !map_app, !keys_mk_app.
+      apply NoDup_app_intro.
+      * now apply nodup_filter.
+      * apply nodup_app_filters; [|assumption]. intros x _. unfold p2, p3. destruct (r_map (snd x)), (r_repeated (snd x)); reflexivity.
+      * intros k H1 H2. apply in_app_or in H2 as [H2|H2].
+        -- revert H2. apply (disjoint_filters p1 p2 m); try assumption.
+           intros x Hx. unfold p1, p2. destruct (r_map (snd x)) eqn:M; [|now rewrite andb_false_r].
+           rewrite (MR x Hx M). reflexivity.
+        -- revert H2. apply (disjoint_filters p1 p3 m); try assumption.
+           intros x _. unfold p1, p3. destruct (r_repeated (snd x)); reflexivity.
+    + intros a Ha. apply in_app_or in Ha as [Ha|Ha]; [|apply in_app_or in Ha as [Ha|Ha]];
+        apply in_map_iff in Ha as [kf [<- Hkf]]; apply filter_In in Hkf as [Hkf P]; exists kf; (split; [assumption|]); apply mk_app_for.
+      * reflexivity.
+      * now apply kind_map.
+      * unfold p3 in P. apply andb_true_iff in P as [R M]. apply negb_true_iff in M. apply kind_list; auto.
+    + intros kf Hkf. destruct (r_repeated (snd kf)) eqn:R; [destruct (r_map (snd kf)) eqn:M|].
+      * exists (mk_app GTruthy Update kf). split; [|reflexivity]. apply in_or_app. right. apply in_or_app. left.
+        apply in_map. apply filter_In. split; [assumption|exact M].
+      * exists (mk_app GTruthy Extend kf). split; [|reflexivity]. apply in_or_app. right. apply in_or_app. right.
+        apply in_map. apply filter_In. split; [assumption|]. unfold p3. now rewrite R, M.
+      * exists (mk_app GNotNone Assign kf). split; [|reflexivity]. apply in_or_app. left.
+        apply in_map. apply filter_In. split; [assumption|]. unfold p1. now rewrite R.
 Qed.
 
-Lemma async_cross_no_apps m pp inf : b_apps (emit_async m true pp inf) = [].
+(* every mapping computed for a cross-package request has primitive fields only, hence no maps *)
+Lemma fields_mapping_cross_no_maps sch input sigs m :
+  fields_mapping sch input true sigs = Some m -> no_maps m /\ (forall kf, In kf m -> r_primitive (snd kf) = true).
 Proof.
-  unfold emit_async. simpl.
-  assert (F : forall (g : string * rfield -> bool), filter (fun kf => g kf && false) m = []).
-  { intro g. induction m as [|x m IH]; simpl; [reflexivity|]. now rewrite andb_false_r. }
-  now rewrite !F.
+  intro H. pose proof (fields_mapping_wf _ _ _ _ _ H) as WF.
+  assert (P : forall kf, In kf m -> r_primitive (snd kf) = true).
+  { unfold fields_mapping in H.
+    destruct (seq_items sch input true (all_pieces sigs)) as [l|] eqn:E; [|discriminate].
+    inversion H; subst m. apply seq_items_spec in E as [E _]. intros kf Hin. apply odict_In in Hin.
+    rewrite E in Hin. apply in_flat_map in Hin as [p [_ Hp]].
+    unfold item_list in Hp. destruct (sig_item sch input true p) as [[kv|]|] eqn:Es; try contradiction.
+    destruct Hp as [->|[]]. unfold sig_item in Es.
+    destruct (get_field sch input (segments (pystrip p))) as [rf|]; [|discriminate].
+    simpl in Es. destruct (r_primitive rf) eqn:Pr; simpl in Es; [|discriminate]. inversion Es. simpl. exact Pr. }
+  split; [|exact P]. intros kf Hkf. specialize (WF kf Hkf). specialize (P kf Hkf).
+  unfold rfield_wf in WF. rewrite P in WF. destruct (r_map (snd kf)); [|reflexivity].
+  destruct (r_message (snd kf)); simpl in WF; [rewrite !andb_false_r in WF|rewrite andb_false_r in WF]; discriminate.
 Qed.
 
 (* ================================================================================================ *)
@@ -716,8 +713,6 @@ Definition finish_ (b : block) (kw : kwargs) (fresh : bool) (r : req) : outcome 
   | PInFresh => if fresh then apply_apps (b_apps b) kw r else OSend r
   | PTop => apply_apps (b_apps b) kw r
   end.
-Definition build_ (b : block) (kw : kwargs) (ctor : list app) : outcome :=
-  if ctor_names_ok b ctor then apply_apps ctor kw empty_req else ORaiseCtor.
 Definition given (ra : rarg) : bool := match ra with RNone => false | _ => true end.
 Definition has_flat (b : block) (kw : kwargs) : bool :=
   match b_guard b with Some ps => existsb (passed kw) ps | None => false end.
@@ -732,34 +727,27 @@ Lemma exec_eq b ra kw :
   | CCross, RDict d => finish_ b kw false d
   | CCross, RNone => finish_ b kw true empty_req
   | CCross, RMsg m => if msg_falsy (b_proto_plus b) m then finish_ b kw true empty_req else finish_ b kw false m
-  | CCrossCtor _, RDict d => finish_ b kw false d
-  | CCrossCtor ctor, RNone => build_ b kw ctor
-  | CCrossCtor ctor, RMsg m => if msg_falsy (b_proto_plus b) m then build_ b kw ctor else finish_ b kw false m
   end.
 Proof. reflexivity. Qed.
 
-Lemma guard_has v m cross pp inf kw : has_flat (emit v m cross pp inf) kw = existsb (passed kw) (names m).
+Lemma guard_has v m cross pp kw : has_flat (emit v m cross pp) kw = existsb (passed kw) (names m).
 Proof. destruct v; unfold has_flat; simpl; destruct m; reflexivity. Qed.
 
-Lemma emit_params v m cross pp inf : b_params (emit v m cross pp inf) = names m.
+Lemma emit_params v m cross pp : b_params (emit v m cross pp) = names m.
 Proof. destruct v; reflexivity. Qed.
-Lemma sync_coerce m cross pp inf : b_coerce (emit_sync m cross pp inf) = if cross then CCross else CSame.
-Proof. reflexivity. Qed.
-Lemma async_coerce m cross pp inf : b_coerce (emit_async m cross pp inf) = if cross then CCrossCtor (ctor_list m) else CSame.
-Proof. reflexivity. Qed.
-Lemma sync_place m cross pp inf : b_place (emit_sync m cross pp inf) = PInFresh.
-Proof. reflexivity. Qed.
-Lemma async_place m cross pp inf : b_place (emit_async m cross pp inf) = PTop.
-Proof. reflexivity. Qed.
-Lemma emit_pp v m cross pp inf : b_proto_plus (emit v m cross pp inf) = pp.
+Lemma emit_coerce v m cross pp : b_coerce (emit v m cross pp) = if cross then CCross else CSame.
 Proof. destruct v; reflexivity. Qed.
-Lemma emit_inf v m cross pp inf : b_input_fields (emit v m cross pp inf) = inf.
+Lemma sync_place m cross pp : b_place (emit_sync m cross pp) = PInFresh.
+Proof. reflexivity. Qed.
+Lemma async_place m cross pp : b_place (emit_async m cross pp) = if cross then PInFresh else PTop.
+Proof. reflexivity. Qed.
+Lemma emit_pp v m cross pp : b_proto_plus (emit v m cross pp) = pp.
 Proof. destruct v; reflexivity. Qed.
 
 (* 1. both templates offer the flattened fields, and nothing else, in the order of the mapping *)
 Lemma params_in_declared_order sch input cross sigs m :
   fields_mapping sch input cross sigs = Some m ->
-  (forall v pp inf, b_params (emit v m cross pp inf) = map (fun kf => r_name (snd kf)) m) /\
+  (forall v pp, b_params (emit v m cross pp) = map (fun kf => r_name (snd kf)) m) /\
   (exists items,
      items = flat_map (item_list sch input cross) (filter (fun p => negb (is_empty p)) (all_pieces sigs)) /\
      map fst m = dedup_first [] (map fst items) /\
@@ -771,10 +759,10 @@ Proof.
   split; [exists items; auto | assumption].
 Qed.
 
-(* 2. a request together with any flattened argument: ValueError, and nothing is sent *)
-Lemma mixed_raises_before_send v m cross pp inf ra kw :
+(* 2. a request together with any flattened argument, whatever its value: ValueError, and nothing is sent *)
+Lemma mixed_raises_before_send v m cross pp ra kw :
   ra <> RNone -> (exists p, In p (names m) /\ passed kw p = true) ->
-  exec (emit v m cross pp inf) ra kw = ORaiseValue.
+  exec (emit v m cross pp) ra kw = ORaiseValue.
 Proof.
   intros Hra [p [Hp Pp]]. rewrite exec_eq, guard_has.
   assert (H : existsb (passed kw) (names m) = true) by (apply existsb_exists; eauto).
@@ -782,7 +770,7 @@ Proof.
 Qed.
 
 (* without flattened fields there is no check and nothing to mix *)
-Lemma no_fields_no_guard v cross pp inf : b_guard (emit v [] cross pp inf) = None /\ b_params (emit v [] cross pp inf) = [].
+Lemma no_fields_no_guard v cross pp : b_guard (emit v [] cross pp) = None /\ b_params (emit v [] cross pp) = [].
 Proof. destruct v; split; reflexivity. Qed.
 
 Lemma names_in m a : (exists kf, In kf m /\ ap_param a = r_name (snd kf)) -> In (ap_param a) (names m).
@@ -799,38 +787,22 @@ Proof.
   - unfold passed. now rewrite E.
 Qed.
 
-Lemma ctor_names m inf b : b_input_fields b = inf -> ctor_ok m inf -> ctor_names_ok b (ctor_list m) = true.
+Lemma emit_covers v m cross pp :
+  NoDup (map fst m) -> fm_wf m -> (v = Async -> cross = true -> no_maps m) -> covers m (b_apps (emit v m cross pp)).
 Proof.
-  intros <- C. unfold ctor_names_ok. apply forallb_forall. intros a Ha. unfold ctor_list in Ha. apply in_map_iff in Ha as [kf [<- Hkf]].
-  simpl. apply mem_str_In. now apply C.
+  intros ND WF C. destruct v; cbn [emit].
+  - now apply (covers_sync m cross pp).
+  - apply (covers_async m cross pp); auto.
 Qed.
 
 Local Opaque emit_sync emit_async.
 
-(* the list of applications that builds the request of a kwargs call *)
-Definition built_by (v : variant) (m : fm) (cross pp : bool) (inf : list string) : list app :=
-  match v, cross with
-  | Async, true => ctor_list m
-  | _, _ => b_apps (emit v m cross pp inf)
-  end.
-
-Lemma built_by_covers v m cross pp inf :
-  NoDup (map fst m) -> fm_wf m -> (v = Async -> cross = true -> ctor_ok m inf) -> covers m (built_by v m cross pp inf).
+(* the kwargs call: the request is built from the empty message by the emitted applications *)
+Lemma exec_kwargs v m cross pp kw :
+  exec (emit v m cross pp) RNone kw = apply_apps (b_apps (emit v m cross pp)) kw empty_req.
 Proof.
-  intros ND WF C. destruct v, cross; simpl.
-  - now apply covers_sync. - now apply covers_sync.
-  - apply (covers_ctor m inf); auto. - now apply covers_async.
-Qed.
-
-Lemma exec_kwargs v m cross pp inf kw :
-  (v = Async -> cross = true -> ctor_ok m inf) ->
-  exec (emit v m cross pp inf) RNone kw = apply_apps (built_by v m cross pp inf) kw empty_req.
-Proof.
-  intro C. rewrite exec_eq. simpl. destruct v; simpl.
-  - rewrite sync_coerce. destruct cross; unfold finish_; now rewrite sync_place.
-  - rewrite async_coerce. destruct cross.
-    + unfold build_. rewrite (ctor_names m inf (emit_async m true pp inf) (emit_inf Async m true pp inf) (C eq_refl eq_refl)). reflexivity.
-    + unfold finish_. now rewrite async_place.
+  rewrite exec_eq, emit_coerce. simpl. unfold finish_.
+  destruct v; simpl; [rewrite sync_place|rewrite async_place]; destruct cross; reflexivity.
 Qed.
 
 Lemma apply_idle m l kw r :
@@ -841,56 +813,47 @@ Proof.
 Qed.
 
 (* a request (message or dict) and no flattened argument: the message is sent as it is, except that a
-   cross-package proto-plus request without any set field is replaced by a new empty message *)
-Lemma exec_given v m cross pp inf ra kw :
-  NoDup (map fst m) -> fm_wf m -> (v = Async -> cross = true -> ctor_ok m inf) ->
+   cross-package proto-plus request whose set fields all hold false values is replaced by a new empty message *)
+Lemma exec_given v m cross pp ra kw :
+  NoDup (map fst m) -> fm_wf m -> (v = Async -> cross = true -> no_maps m) ->
   existsb (passed kw) (names m) = false ->
   match ra with
   | RNone => True
-  | RDict d => exec (emit v m cross pp inf) ra kw = OSend d
-  | RMsg r => exec (emit v m cross pp inf) ra kw = OSend (if cross && msg_falsy pp r then empty_req else r)
+  | RDict d => exec (emit v m cross pp) ra kw = OSend d
+  | RMsg r => exec (emit v m cross pp) ra kw = OSend (if cross && msg_falsy pp r then empty_req else r)
   end.
 Proof.
-  intros ND WF C H. destruct ra as [|d|r]; [exact I| |]; rewrite exec_eq, guard_has, H, andb_false_r.
-  - destruct v; simpl.
-    + rewrite sync_coerce. destruct cross; unfold finish_; rewrite sync_place; [reflexivity|].
-      apply (apply_idle m); auto. now apply covers_sync.
-    + rewrite async_coerce. destruct cross; unfold finish_; rewrite async_place.
-      * rewrite async_cross_no_apps. reflexivity.
-      * apply (apply_idle m); auto. now apply covers_async.
-  - rewrite (emit_pp v). destruct v; simpl.
-    + rewrite sync_coerce. destruct cross; simpl; unfold finish_; rewrite sync_place; [|reflexivity].
-      destruct (msg_falsy pp r); [|reflexivity]. apply (apply_idle m); auto. now apply covers_sync.
-    + rewrite async_coerce. destruct cross; simpl.
-      * destruct (msg_falsy pp r).
-        -- unfold build_. rewrite (ctor_names m inf (emit_async m true pp inf) (emit_inf Async m true pp inf) (C eq_refl eq_refl)).
-           apply (apply_idle m); auto. apply (covers_ctor m inf); auto.
-        -- unfold finish_. rewrite async_place, async_cross_no_apps. reflexivity.
-      * unfold finish_. rewrite async_place. apply (apply_idle m); auto. now apply covers_async.
+  intros ND WF C H. pose proof (emit_covers v m cross pp ND WF C) as CV.
+  destruct ra as [|d|r]; [exact I| |]; rewrite exec_eq, guard_has, H, andb_false_r, emit_coerce; unfold finish_.
+  - destruct v; simpl in *; [rewrite sync_place|rewrite async_place]; destruct cross; try reflexivity;
+      apply (apply_idle m); auto.
+  - rewrite emit_pp. destruct v; simpl in *; [rewrite sync_place|rewrite async_place]; destruct cross; simpl;
+      try reflexivity; try (apply (apply_idle m); auto);
+      (destruct (msg_falsy pp r); [apply (apply_idle m); auto|reflexivity]).
 Qed.
 
 Lemma passed_nil l : existsb (passed []) l = false.
 Proof. induction l; [reflexivity|assumption]. Qed.
 
 (* 3. flattened_equiv *)
-Lemma flattened_equiv v m cross pp inf kw :
+Lemma flattened_equiv v m cross pp kw :
   NoDup (map fst m) -> fm_wf m -> kw_wf m kw -> no_empty_dotted m kw ->
-  (v = Async -> cross = true -> ctor_ok m inf) ->
+  (v = Async -> cross = true -> no_maps m) ->
   exists r1 r2,
-    exec (emit v m cross pp inf) RNone kw = OSend r1 /\
-    exec (emit v m cross pp inf) (RMsg (request_of m kw)) [] = OSend r2 /\
+    exec (emit v m cross pp) RNone kw = OSend r1 /\
+    exec (emit v m cross pp) (RMsg (request_of m kw)) [] = OSend r2 /\
     req_equiv r1 (request_of m kw) /\
     (r2 = request_of m kw \/
      (cross = true /\ msg_falsy pp (request_of m kw) = true /\ r2 = empty_req)).
 Proof.
   intros ND WF W E C.
   pose proof (covers_spec m ND) as CS.
-  pose proof (built_by_covers v m cross pp inf ND WF C) as CB.
-  exists (run_apps (built_by v m cross pp inf) kw empty_req).
+  pose proof (emit_covers v m cross pp ND WF C) as CB.
+  exists (run_apps (b_apps (emit v m cross pp)) kw empty_req).
   exists (if cross && msg_falsy pp (request_of m kw) then empty_req else request_of m kw).
   split; [|split; [|split]].
-  - rewrite (exec_kwargs v m cross pp inf kw C). unfold apply_apps. now rewrite (covers_typed m kw _ W CB).
-  - apply (exec_given v m cross pp inf (RMsg (request_of m kw)) [] ND WF C (passed_nil _)).
+  - rewrite (exec_kwargs v m cross pp kw). unfold apply_apps. now rewrite (covers_typed m kw _ W CB).
+  - apply (exec_given v m cross pp (RMsg (request_of m kw)) [] ND WF C (passed_nil _)).
   - apply (covers_equiv m kw _ (spec_apps m)); assumption.
   - destruct (cross && msg_falsy pp (request_of m kw)) eqn:F; [|now left]. right.
     apply andb_true_iff in F as [-> F]. auto.
@@ -901,37 +864,36 @@ Definition outcome_equiv (a b : outcome) : Prop :=
   match a, b with
   | OSend x, OSend y => req_equiv x y
   | ORaiseValue, ORaiseValue => True
-  | ORaiseCtor, ORaiseCtor => True
   | ORaiseType, ORaiseType => True
   | _, _ => False
   end.
 
-Lemma sync_async_agree m cross pp inf ra kw :
+Lemma sync_async_agree m cross pp ra kw :
   NoDup (map fst m) -> fm_wf m -> kw_wf m kw -> no_empty_dotted m kw ->
-  (cross = true -> ctor_ok m inf) ->
-  outcome_equiv (exec (emit Sync m cross pp inf) ra kw) (exec (emit Async m cross pp inf) ra kw).
+  (cross = true -> no_maps m) ->
+  outcome_equiv (exec (emit Sync m cross pp) ra kw) (exec (emit Async m cross pp) ra kw).
 Proof.
   intros ND WF W E C.
-  assert (CS : Sync = Async -> cross = true -> ctor_ok m inf) by discriminate.
-  assert (CA : Async = Async -> cross = true -> ctor_ok m inf) by (intros _; exact C).
+  assert (CS : Sync = Async -> cross = true -> no_maps m) by discriminate.
+  assert (CA : Async = Async -> cross = true -> no_maps m) by (intros _; exact C).
   destruct ra as [|d|r].
-  - rewrite (exec_kwargs Sync m cross pp inf kw CS), (exec_kwargs Async m cross pp inf kw CA).
-    pose proof (built_by_covers Sync m cross pp inf ND WF CS) as B1.
-    pose proof (built_by_covers Async m cross pp inf ND WF CA) as B2.
+  - rewrite !exec_kwargs.
+    pose proof (emit_covers Sync m cross pp ND WF CS) as B1.
+    pose proof (emit_covers Async m cross pp ND WF CA) as B2.
     unfold apply_apps. rewrite (covers_typed m kw _ W B1), (covers_typed m kw _ W B2). simpl.
     apply (covers_equiv m kw); assumption.
   - destruct (existsb (passed kw) (names m)) eqn:H.
     + assert (X : exists p, In p (names m) /\ passed kw p = true) by (apply existsb_exists in H; exact H).
-      rewrite (mixed_raises_before_send Sync m cross pp inf (RDict d) kw); [|discriminate|assumption].
-      rewrite (mixed_raises_before_send Async m cross pp inf (RDict d) kw); [|discriminate|assumption]. exact I.
-    + rewrite (exec_given Sync m cross pp inf (RDict d) kw ND WF CS H).
-      rewrite (exec_given Async m cross pp inf (RDict d) kw ND WF CA H). simpl. apply req_equiv_refl.
+      rewrite (mixed_raises_before_send Sync m cross pp (RDict d) kw); [|discriminate|assumption].
+      rewrite (mixed_raises_before_send Async m cross pp (RDict d) kw); [|discriminate|assumption]. exact I.
+    + rewrite (exec_given Sync m cross pp (RDict d) kw ND WF CS H).
+      rewrite (exec_given Async m cross pp (RDict d) kw ND WF CA H). simpl. apply req_equiv_refl.
   - destruct (existsb (passed kw) (names m)) eqn:H.
     + assert (X : exists p, In p (names m) /\ passed kw p = true) by (apply existsb_exists in H; exact H).
-      rewrite (mixed_raises_before_send Sync m cross pp inf (RMsg r) kw); [|discriminate|assumption].
-      rewrite (mixed_raises_before_send Async m cross pp inf (RMsg r) kw); [|discriminate|assumption]. exact I.
-    + rewrite (exec_given Sync m cross pp inf (RMsg r) kw ND WF CS H).
-      rewrite (exec_given Async m cross pp inf (RMsg r) kw ND WF CA H). simpl. apply req_equiv_refl.
+      rewrite (mixed_raises_before_send Sync m cross pp (RMsg r) kw); [|discriminate|assumption].
+      rewrite (mixed_raises_before_send Async m cross pp (RMsg r) kw); [|discriminate|assumption]. exact I.
+    + rewrite (exec_given Sync m cross pp (RMsg r) kw ND WF CS H).
+      rewrite (exec_given Async m cross pp (RMsg r) kw ND WF CA H). simpl. apply req_equiv_refl.
 Qed.
 
 Local Transparent emit_sync emit_async.
@@ -974,7 +936,7 @@ Lemma ex_mapping :
   fields_mapping ex_sch ex_req false ex_sigs = Some ex_m /\
   map fst ex_m = ["name"; "class_"; "book.title"; "names"; "labels"; "values"; "book.class_"] /\
   names ex_m = ["name"; "class_"; "title"; "names"; "labels"; "values"; "class_"] /\
-  block_ok (emit Sync ex_m false true (ctor_fields ex_req)) = false.
+  block_ok (emit Sync ex_m false true) = false.
 Proof. vm_compute. repeat split. Qed.
 (* the last line: book.class and class both want the parameter class_ : the duplicate-parameter defect *)
 
@@ -984,12 +946,12 @@ Definition ex_m2 : fm := match fields_mapping ex_sch ex_req false ex_sigs2 with 
 Lemma ex_hypotheses :
   fields_mapping ex_sch ex_req false ex_sigs2 = Some ex_m2 /\
   NoDup (map fst ex_m2) /\ fm_wf ex_m2 /\ kw_wf ex_m2 ex_kw /\ no_empty_dotted ex_m2 ex_kw /\
-  block_ok (emit Sync ex_m2 false true (ctor_fields ex_req)) = true /\
-  block_ok (emit Async ex_m2 false true (ctor_fields ex_req)) = true /\
-  (exists r, exec (emit Sync ex_m2 false true (ctor_fields ex_req)) RNone ex_kw = OSend r /\
+  block_ok (emit Sync ex_m2 false true) = true /\
+  block_ok (emit Async ex_m2 false true) = true /\
+  (exists r, exec (emit Sync ex_m2 false true) RNone ex_kw = OSend r /\
              lookup "book.title" r = Some (LS "st") /\ lookup "class_" r = None /\ vivified "book" r = true /\
              lookup "values" r = Some (LL ["mGgF2"])) /\
-  exec (emit Async ex_m2 false true (ctor_fields ex_req)) (RMsg empty_req) ex_kw = ORaiseValue.
+  exec (emit Async ex_m2 false true) (RMsg empty_req) ex_kw = ORaiseValue.
 Proof.
   split; [vm_compute; reflexivity|]. split; [apply nodupb_NoDup; vm_compute; reflexivity|].
   split; [apply (fields_mapping_wf ex_sch ex_req false ex_sigs2); vm_compute; reflexivity|].
@@ -1005,98 +967,94 @@ Proof.
   split; [eexists; split; [vm_compute; reflexivity|vm_compute; repeat split]|vm_compute; reflexivity].
 Qed.
 
-(* cross-package request (plain protobuf): name, two repeated scalars, a dotted scalar *)
+(* cross-package request (plain protobuf): a reserved (non-keyword) name, two repeated scalars, a dotted scalar, a message.
+   This single mapping is the former witness of three defects repaired in /repo (353b7c7, 14fc9e4, d43e852):
+   two repeated fields, a dotted path in the asyncio client, a reserved field name of a plain protobuf message. *)
 Definition ex_sub : message := mkMsg false [scalar "text"].
 Definition ex_common : message :=
-  mkMsg false [scalar "name"; rscalar "tags"; rscalar "nums"; msgf "sub" ".c.Sub"; scalar "text"].
+  mkMsg false [scalar "name"; rscalar "tags"; rscalar "nums"; msgf "sub" ".c.Sub"; scalar "text"; scalar "type"].
 Definition ex_csch : schema := [(".c.Sub", ex_sub); (".c.Common", ex_common)].
+Definition ex_csigs : list string := ["name, tags"; "sub.text,nums"; "sub, type"].
 Definition cm (sigs : list string) : fm := match fields_mapping ex_csch ex_common true sigs with Some m => m | None => [] end.
+Definition ex_ckw : kwargs := [("tags", LL ["=sa"]); ("text", LS "sx"); ("nums", LL []); ("type", LS "")].
 
 Lemma ex_cross_hypotheses :
-  let m := cm ["name, tags"; "sub"] in
-  fields_mapping ex_csch ex_common true ["name, tags"; "sub"] = Some m /\
-  map fst m = ["name"; "tags"] /\ NoDup (map fst m) /\ fm_wf m /\ ctor_ok m (ctor_fields ex_common) /\
-  block_ok (emit Sync m true false (ctor_fields ex_common)) = true /\
-  exec (emit Sync m true false (ctor_fields ex_common)) RNone [("tags", LL ["=sa"])] = OSend (mkReq [("tags", LL ["=sa"])] []) /\
-  exec (emit Async m true false (ctor_fields ex_common)) RNone [("tags", LL ["=sa"])] = OSend (mkReq [("tags", LL ["=sa"])] []).
+  let m := cm ex_csigs in
+  fields_mapping ex_csch ex_common true ex_csigs = Some m /\
+  map fst m = ["name"; "tags"; "sub.text"; "nums"; "type"] /\ names m = ["name"; "tags"; "text"; "nums"; "type"] /\
+  NoDup (map fst m) /\ fm_wf m /\ no_maps m /\
+  block_ok (emit Sync m true false) = true /\ block_ok (emit Async m true false) = true /\
+  exec (emit Sync m true false) RNone ex_ckw = OSend (mkReq [("tags", LL ["=sa"]); ("sub.text", LS "sx")] ["sub"]) /\
+  exec (emit Async m true false) RNone ex_ckw = OSend (mkReq [("tags", LL ["=sa"]); ("sub.text", LS "sx")] ["sub"]) /\
+  exec (emit Async m true false) RNone [] = OSend empty_req /\
+  exec (emit Async m true false) (RDict empty_req) [("text", LS "")] = ORaiseValue.
 Proof.
-  simpl. split; [vm_compute; reflexivity|]. split; [vm_compute; reflexivity|].
+  simpl. split; [vm_compute; reflexivity|]. split; [vm_compute; reflexivity|]. split; [vm_compute; reflexivity|].
   split; [apply nodupb_NoDup; vm_compute; reflexivity|].
-  split; [apply (fields_mapping_wf ex_csch ex_common true ["name, tags"; "sub"]); vm_compute; reflexivity|].
-  split.
-  { intros kf Hin. vm_compute in Hin. repeat (destruct Hin as [<-|Hin]; [vm_compute; repeat split; auto|]). contradiction. }
+  split; [apply (fields_mapping_wf ex_csch ex_common true ex_csigs); vm_compute; reflexivity|].
+  split; [apply (fields_mapping_cross_no_maps ex_csch ex_common ex_csigs); vm_compute; reflexivity|].
   repeat split; vm_compute; reflexivity.
 Qed.
 
-(* --- refutations: each is replayed on the implementation by the check (harness/gv/props/c05.py, WITNESSES) --- *)
-
-(* two repeated fields of a cross-package request: the second "if" line is emitted with a stray space *)
-Lemma indent_refuted :
-  exists m, fields_mapping ex_csch ex_common true ["name,tags,nums"] = Some m /\
-            sig_ok (emit Sync m true false (ctor_fields ex_common)) = true /\
-            keys_ok (emit Sync m true false (ctor_fields ex_common)) = true /\
-            block_ok (emit Sync m true false (ctor_fields ex_common)) = false.
-Proof. eexists. split; [vm_compute; reflexivity|]. vm_compute. repeat split. Qed.
-
-(* asyncio, cross-package, dotted path: the constructor is called with the last path segment as keyword *)
-Lemma async_cross_dotted_refuted :
-  exists m, fields_mapping ex_csch (mkMsg false [scalar "name"; msgf "sub" ".c.Sub"]) true ["name,sub.text"] = Some m /\
-    let inf := ["name"; "sub"] in
-    exec (emit Sync m true false inf) RNone [] = OSend empty_req /\
-    exec (emit Async m true false inf) RNone [] = ORaiseCtor /\
-    exec (emit Async m true false inf) (RDict empty_req) [] = OSend empty_req.
-Proof. eexists. split; [vm_compute; reflexivity|]. vm_compute. repeat split. Qed.
-
-(* ... and when the last segment happens to name a top-level field, that field is set instead *)
-Lemma async_cross_dotted_wrong_field_refuted :
-  exists m, fields_mapping ex_csch ex_common true ["sub.text"] = Some m /\
-    let inf := ctor_fields ex_common in
-    (exists r, exec (emit Sync m true false inf) RNone [("text", LS "sx")] = OSend r /\ lookup "sub.text" r = Some (LS "sx") /\ lookup "text" r = None) /\
-    (exists r, exec (emit Async m true false inf) RNone [("text", LS "sx")] = OSend r /\ lookup "sub.text" r = None /\ lookup "text" r = Some (LS "sx")).
-Proof. eexists. split; [vm_compute; reflexivity|]. simpl. split; eexists; (split; [vm_compute; reflexivity|vm_compute; split; reflexivity]). Qed.
+(* --- statements the faithful model violates: each is replayed on the implementation by the check (corpus/C05) --- *)
 
 (* a dotted path through a reserved word: request.class.title is not Python *)
 Lemma reserved_segment_refuted :
   exists m, fields_mapping ex_sch (mkMsg true [msgf "class" ".p.Inner"]) false ["class.title"] = Some m /\
-            map fst m = ["class.title"] /\ keys_ok (emit Sync m false true ["class_"]) = false /\ keys_ok (emit Async m false true ["class_"]) = false.
+            map fst m = ["class.title"] /\ keys_ok (emit Sync m false true) = false /\ keys_ok (emit Async m false true) = false.
 Proof. eexists. split; [vm_compute; reflexivity|]. vm_compute. repeat split. Qed.
 
 (* a flattened field called retry: duplicate argument *)
 Lemma control_name_refuted :
   exists m, fields_mapping ex_sch ex_req false ["name,retry"] = Some m /\
-            sig_ok (emit Sync m false true (ctor_fields ex_req)) = false /\ sig_ok (emit Async m false true (ctor_fields ex_req)) = false.
+            sig_ok (emit Sync m false true) = false /\ sig_ok (emit Async m false true) = false.
 Proof. eexists. split; [vm_compute; reflexivity|]. vm_compute. split; reflexivity. Qed.
 
 (* two paths with the same last segment: duplicate argument *)
 Lemma duplicate_param_refuted :
   exists m, fields_mapping ex_sch ex_req false ["book.title,other.title"] = Some m /\
-            NoDup (map fst m) /\ sig_ok (emit Sync m false true (ctor_fields ex_req)) = false.
+            NoDup (map fst m) /\ sig_ok (emit Sync m false true) = false.
 Proof. eexists. split; [vm_compute; reflexivity|]. split; [apply nodupb_NoDup; vm_compute; reflexivity|vm_compute; reflexivity]. Qed.
+
+(* a keyword-named field of a plain protobuf request keeps its name (only proto-plus renames): "class: Optional[str] = None" *)
+Lemma keyword_param_pb2_refuted :
+  let input := mkMsg false [scalar "name"; scalar "class"] in
+  exists m, fields_mapping [] input true ["name,class"] = Some m /\ names m = ["name"; "class"] /\
+            sig_ok (emit Sync m true false) = false /\ sig_ok (emit Async m true false) = false.
+Proof. eexists. split; [vm_compute; reflexivity|]. vm_compute. repeat split. Qed.
 
 (* an empty list for a dotted repeated field: the sync client materialises the parent message, the asyncio client does not *)
 Lemma empty_container_dotted_refuted :
   exists m, fields_mapping ex_sch ex_req false ["name,book.tags"] = Some m /\
-    let inf := ctor_fields ex_req in
     let kw := [("tags", LL [])] in
-    (exists r1 r2, exec (emit Sync m false true inf) RNone kw = OSend r1 /\ exec (emit Async m false true inf) RNone kw = OSend r2 /\
+    (exists r1 r2, exec (emit Sync m false true) RNone kw = OSend r1 /\ exec (emit Async m false true) RNone kw = OSend r2 /\
                    vivified "book" r1 = true /\ vivified "book" r2 = false /\ vivified "book" (request_of m kw) = true).
 Proof. eexists. split; [vm_compute; reflexivity|]. simpl. eexists. eexists. split; [vm_compute; reflexivity|]. split; [vm_compute; reflexivity|]. vm_compute. repeat split. Qed.
-
-(* a reserved field name in a request that is not a proto-plus message: get_field looks the name up with an underscore,
-   the fields dictionary of such a message has it without: KeyError at generation time *)
-Lemma reserved_in_pb2_request_refuted :
-  let input := mkMsg false [scalar "name"; scalar "type"] in
-  fields_mapping [] input true ["name"] <> None /\ fields_mapping [] input true ["name,type"] = None /\
-  fields_mapping [] (mkMsg true [scalar "name"; scalar "type"]) false ["name,type"] <> None.
-Proof. vm_compute. repeat split; discriminate. Qed.
 
 (* a cross-package proto-plus request whose set fields all hold false values is replaced by a new message: a field
    with explicit presence set to its default is lost when the message is passed, kept when it is passed as keyword *)
 Lemma falsy_request_refuted :
   let input := mkMsg true [mkField "level" TScalar false false false true] in
   exists m, fields_mapping [] input true ["level"] = Some m /\
-    exec (emit Sync m true true ["level"]) RNone [("level", LS "")] = OSend (mkReq [("level", LS "")] []) /\
+    exec (emit Sync m true true) RNone [("level", LS "")] = OSend (mkReq [("level", LS "")] []) /\
+    exec (emit Async m true true) RNone [("level", LS "")] = OSend (mkReq [("level", LS "")] []) /\
     request_of m [("level", LS "")] = mkReq [("level", LS "")] [] /\
-    exec (emit Sync m true true ["level"]) (RMsg (mkReq [("level", LS "")] [])) [] = OSend empty_req /\
-    exec (emit Async m true true ["level"]) (RMsg (mkReq [("level", LS "")] [])) [] = OSend empty_req.
+    exec (emit Sync m true true) (RMsg (mkReq [("level", LS "")] [])) [] = OSend empty_req /\
+    exec (emit Async m true true) (RMsg (mkReq [("level", LS "")] [])) [] = OSend empty_req.
 Proof. eexists. split; [vm_compute; reflexivity|]. vm_compute. repeat split. Qed.
+
+(* a falsy value is still a value: 0, the empty string, False passed together with a request raise; passed alone, a
+   proto3-optional scalar set to its default and an empty sub-message reach the request (presence), in both clients *)
+Lemma falsy_values_count :
+  let input := mkMsg true [scalar "parent"; mkField "page_size" TScalar false false false true; msgf "filter" ".p.Inner"; scalar "flag"] in
+  exists m, fields_mapping ex_sch input false ["parent,page_size,filter,flag"] = Some m /\
+    (forall v p, In p ["parent"; "page_size"; "filter"; "flag"] ->
+       exec (emit v m false true) (RMsg empty_req) [(p, if String.eqb p "filter" then LM "" else LS "")] = ORaiseValue /\
+       exec (emit v m false true) (RDict empty_req) [(p, if String.eqb p "filter" then LM "" else LS "")] = ORaiseValue) /\
+    (forall v, exec (emit v m false true) RNone [("page_size", LS ""); ("filter", LM ""); ("parent", LS ""); ("flag", LS "")]
+               = OSend (mkReq [("filter", LM ""); ("page_size", LS "")] [])).
+Proof.
+  eexists. split; [vm_compute; reflexivity|]. split.
+  - intros v p H. simpl in H. destruct v; repeat (destruct H as [<-|H]; [vm_compute; split; reflexivity|]); contradiction.
+  - intros []; vm_compute; reflexivity.
+Qed.
